@@ -45,13 +45,13 @@ def classify(data):
         txt = data.decode("ascii")
     except UnicodeDecodeError:
         return -3
-    if txt.endswith("\n") and txt[:-1].isdigit() and txt[:-1] == str(int(txt[:-1])) and int(txt) in ABS:
-        return ABS[int(txt)]
+    if txt.endswith("\n") and txt[:-1].isdigit() and txt[:-1] == str(int(txt[:-1])):
+        return ABS.get(int(txt), 5)          # an unknown pid is a pid that is not alive (5)
     try:
         n = int(txt)
     except ValueError:
         return -3
-    return 10 + ABS[n] if n in ABS else -3
+    return 10 + ABS.get(n, 5)
 
 
 def content_bytes(c, variant=0):
@@ -61,7 +61,7 @@ def content_bytes(c, variant=0):
         return [b"%d", b" %d\n", b"%d\n\n", b"0%d\n"][variant % 4] % REAL[c - 10]
     if c == -1:
         return b""
-    return [b"junk\n", b"None\n", b"12x\n", b"4100", b"\xff\xfe"][variant % 5]
+    return [b"junk\n", b"None\n", b"12x\n", b"41 001\n", b"\xff\xfe"][variant % 5]
 
 
 class World:
